@@ -100,8 +100,8 @@ struct Sched {
   std::map<const void *, int> thread_of_obj;
   long default_cap;
   bool active;
-  std::string note;   // events worth showing in the next trace token (chain/pool)
-  Sched() : default_cap(1), active(false) {}
+  bool coarse;        // park only before whole queue operations (ThreadPool / Chain runs)
+  Sched() : default_cap(1), active(false), coarse(false) {}
 };
 
 Sched G;
@@ -118,6 +118,9 @@ QShadow &Q(const void *obj) {
 }
 
 bool Parking(int id) {
+  if (G.coarse) {
+    return id == kProduceBeforeWait || id == kConsumeBeforeWait || id == kThreadStart || id == kThreadBeforeJoin;
+  }
   switch (id) {
     case kProduceBeforeWait: case kProduceBeforeLock: case kProduceAfterLock:
     case kProduceBeforeUnlock: case kProduceAfterUnlock:
@@ -257,7 +260,7 @@ void Settle(std::unique_lock<std::mutex> &l, size_t expect_threads) {
 
 void ResetSched(long default_cap) {
   G.th.clear(); G.q.clear(); G.qorder.clear(); G.thread_of_obj.clear();
-  G.default_cap = default_cap; G.note.clear();
+  G.default_cap = default_cap; G.coarse = false;
 }
 #endif  // HAVE_HOOKS
 
@@ -437,6 +440,140 @@ std::string RunPcqFree(const PcqCase &c, unsigned seed, int perturb, bool record
   return out.str();
 }
 
+
+#if HAVE_HOOKS
+// ---------------------------------------------------------------- ThreadPool / Chain cases (operation granularity)
+// generic controller loop: token = <tid><pc>/<enabled>
+std::string Drive(std::unique_lock<std::mutex> &l, const std::vector<long> &sched, size_t initial_threads) {
+  std::ostringstream out;
+  try {
+    Settle(l, initial_threads);
+    out << "I/" << Join(EnabledSet());
+    size_t si = 0;
+    while (true) {
+      int t;
+      if (si < sched.size()) {
+        t = (int)sched[si++];
+        if (t < 0 || t >= (int)G.th.size() || !Enabled(t)) { out << " x" << t; continue; }
+      } else {
+        std::vector<long> en = EnabledSet();
+        if (en.empty()) break;
+        t = (int)en[0];
+      }
+      Release(l, t);
+      out << ' ' << t << PcChar(t) << '/' << Join(EnabledSet());
+    }
+  } catch (Stuck &) {
+    out << " END stuck F -";
+    Die(out.str());
+  }
+  bool all = true;
+  for (size_t i = 0; i < G.th.size(); ++i) if (G.th[i].state != FINISHED) all = false;
+  out << " END " << (all ? "ok" : "deadlock") << " F ";
+  if (!all) { out << "-"; Die(out.str()); }
+  return out.str();
+}
+
+struct PoolResults { std::vector<std::vector<long> > handled; };
+struct PoolHandler {
+  typedef long Request;
+  PoolHandler(PoolResults *r) : r_(r) {}   // implicit: Worker builds boost::optional<Handler>(construct)
+  void operator()(long request) {
+    // each worker thread only touches its own slot; the controller reads while everybody is parked
+    r_->handled[my_tid - 1].push_back(request);
+  }
+  PoolResults *r_;
+};
+
+std::string RunPool(long cap, long workers, const std::vector<long> &requests, const std::vector<long> &sched) {
+  PoolResults results;
+  results.handled.resize(workers);
+  {
+    std::unique_lock<std::mutex> l(G.m);
+    ResetSched(cap);
+    G.coarse = true;
+    G.th.resize(1);
+    G.active = true;
+  }
+  std::thread main_thread([&] {
+    ManagedBegin(0);
+    {
+      util::ThreadPool<PoolHandler> pool(cap, workers, &results, -1L);
+      for (size_t i = 0; i < requests.size(); ++i) pool.Produce(requests[i]);
+    }
+    ManagedEnd();
+  });
+  std::unique_lock<std::mutex> l(G.m);
+  std::string trace = Drive(l, sched, 1 + workers);
+  G.active = false;
+  l.unlock();
+  main_thread.join();
+  std::ostringstream out;
+  out << trace;
+  for (long w = 0; w < workers; ++w) { if (w) out << ';'; out << (w + 1) << ':' << Join(results.handled[w]); }
+  return out.str();
+}
+
+struct ChainResults { std::vector<std::vector<long> > seen; };
+
+struct SourceWorker {
+  SourceWorker(const std::vector<long> *data) : data_(data) {}
+  void Run(const util::stream::ChainPosition &position) {
+    size_t i = 0;
+    for (util::stream::Link l(position); l; ++l) {
+      if (i == data_->size()) { l.Poison(); break; }
+      *static_cast<uint64_t *>(l->Get()) = (uint64_t)(*data_)[i++];
+      l->SetValidSize(sizeof(uint64_t));
+    }
+  }
+  const std::vector<long> *data_;
+};
+struct PassWorker {
+  PassWorker(ChainResults *r, int stage) : r_(r), stage_(stage) {}
+  void Run(const util::stream::ChainPosition &position) {
+    for (util::stream::Link l(position); l; ++l) {
+      uint64_t *p = static_cast<uint64_t *>(l->Get());
+      r_->seen[stage_].push_back((long)*p);
+      *p = *p * 10 + (uint64_t)stage_;
+    }
+  }
+  ChainResults *r_;
+  int stage_;
+};
+
+std::string RunChain(long b, long m, const std::vector<long> &data, const std::vector<long> &sched) {
+  ChainResults results;
+  results.seen.resize(m + 2);
+  {
+    std::unique_lock<std::mutex> l(G.m);
+    ResetSched(b);
+    G.coarse = true;
+    G.th.resize(1);
+    G.active = true;
+  }
+  std::thread main_thread([&] {
+    ManagedBegin(0);
+    {
+      util::stream::ChainConfig config(sizeof(uint64_t), b, sizeof(uint64_t) * b);
+      util::stream::Chain chain(config);
+      chain >> SourceWorker(&data);
+      for (long j = 2; j <= m; ++j) chain >> PassWorker(&results, (int)j);
+      chain.Wait();
+    }
+    ManagedEnd();
+  });
+  std::unique_lock<std::mutex> l(G.m);
+  std::string trace = Drive(l, sched, 1);
+  G.active = false;
+  l.unlock();
+  main_thread.join();
+  std::ostringstream out;
+  out << trace;
+  for (long j = 2; j <= m; ++j) { if (j > 2) out << ';'; out << j << ':' << Join(results.seen[j]); }
+  return out.str();
+}
+#endif
+
 }  // namespace
 
 int main() {
@@ -460,6 +597,16 @@ int main() {
       c.quotas = Nats(quotas);
       c.sched = Nats(sched);
       std::cout << RunPcq(c) << std::endl;
+#if HAVE_HOOKS
+    } else if (op == "pool") {
+      long cap, workers; std::string reqs, sched;
+      in >> cap >> workers >> reqs >> sched;
+      std::cout << RunPool(cap, workers, Nats(reqs), Nats(sched)) << std::endl;
+    } else if (op == "chain") {
+      long b, m; std::string data, sched;
+      in >> b >> m >> data >> sched;
+      std::cout << RunChain(b, m, Nats(data), Nats(sched)) << std::endl;
+#endif
     } else if (op == "pcqfree") {
       // pcqfree <cap> <prods> <quotas> <seed> <perturb%> <record 0|1>
       std::string cap, prods, quotas;
